@@ -56,7 +56,7 @@ func (w *World) parseObjectPath(p wPath) objPath {
 				op.appends = append(op.appends, e)
 			}
 			continue
-		case e.Kind == "loophead", e.Kind == "register", strings.HasPrefix(e.Kind, "encode:"):
+		case e.Kind == "loophead", e.Kind == "register", e.Kind == "typetest", strings.HasPrefix(e.Kind, "encode:"):
 			continue
 		}
 		bad := func(msg string) {
@@ -360,7 +360,7 @@ func (w *World) foundIndex(idx *Term) (bool, string) {
 		if !ok {
 			continue
 		}
-		if o, _, okf := w.fieldOfLoad(ia.X); !okf || o != "Encoder" {
+		if o, _, okf := w.fieldOfLoadVia(ia.X); !okf || o != "Encoder" {
 			continue
 		}
 		// the entry read through ia reaches a comparison
